@@ -19,6 +19,17 @@ package llrp
 //   c <perm> <gomaxprocs> <n> then n x (<exp> <act> <code> <desc> <fe> <pe> <mode>): n SendFor calls in flight on one
 //        Client (TCP loopback); the peer collects the n requests and writes the n replies in ONE write, in the order
 //        given by the digits of <perm>; the answer line holds the n answers separated by " | ".
+//   a flag V<d> (d = 0..7) stamps the scripted reply's header with LLRP version d (default: 1) — the version a reply
+//        carries in its header is independent of the version negotiated for the connection
+//   nv <n>   rebuilds the session with another negotiated version: 1 = WithVersion(1.0.1), no negotiation;
+//        2 = default client, reader already at 1.1; 3 = default client, reader at 1.0.1 / max 1.1, SET_PROTOCOL_VERSION -> 1.1;
+//        4 = default client, reader answers the version query with ERROR_MESSAGE VersionUnsupported -> 1.0.1
+//   y <exp> <act> <hex|-> <mode>   the reply's payload is given verbatim (undecodable replies)
+//   h <step>...   one exchange history on one Client (see c12History): S:<k>:<exp>:<mode> start caller k;
+//        A:<k> caller k's context is cancelled (the request stays unanswered); R:<ver>:<typ>:<idspec>:<layout>:<code>:<desc>:<fe>:<pe>:<flags|->
+//        the reader sends a frame (idspec k<n> = the id of caller n's request, f<n> = an id no request ever carried,
+//        m<n> = the largest id used so far plus n, z0 = id 0, which only the session's warm-up exchange carried);
+//        answer: one answer per caller, in caller order, separated by " | " (cls `abandoned` = the context's error after A)
 // answer: <cls> <code> <desc> <fe> <pe> <same|changed> <in_code> <in_desc> <in_fe> <in_pe>
 //   cls = nil | status | other | timeout | panic | skipped (see c12BrokenBudget)
 
@@ -50,6 +61,15 @@ type c12Reply struct {
 	typ     uint16
 	payload []byte
 	pre     *c12Reply // frame sent before the reply, with the same id
+	verp1   int       // header version + 1; 0 = the peer's default
+}
+
+// c12VerOf: the header version requested by a V<d> flag, plus one (0 = none requested)
+func c12VerOf(flags string) int {
+	if i := strings.IndexByte(flags, 'V'); i >= 0 && i+1 < len(flags) && flags[i+1] >= '0' && flags[i+1] <= '7' {
+		return int(flags[i+1]-'0') + 1
+	}
+	return 0
 }
 
 func c12be16(v uint16) []byte { return []byte{byte(v >> 8), byte(v)} }
@@ -109,10 +129,12 @@ func c12statusTLV(code uint16, desc []byte, fe *c12Level, pe []c12Level, flags s
 }
 
 // 10-byte message header: 3 reserved bits, 3-bit version, 10-bit type; u32 total length; u32 id
-func c12frame(typ uint16, id uint32, payload []byte) []byte {
+func c12frame(typ uint16, id uint32, payload []byte) []byte { return c12frameV(1, typ, id, payload) }
+
+func c12frameV(ver byte, typ uint16, id uint32, payload []byte) []byte {
 	n := uint32(10 + len(payload))
 	out := make([]byte, 0, n)
-	out = append(out, 1<<2|byte(typ>>8)&3, byte(typ),
+	out = append(out, (ver&7)<<2|byte(typ>>8)&3, byte(typ),
 		byte(n>>24), byte(n>>16), byte(n>>8), byte(n),
 		byte(id>>24), byte(id>>16), byte(id>>8), byte(id))
 	return append(out, payload...)
@@ -131,6 +153,9 @@ type c12Session struct {
 //
 //	none | exp (a handler for every status-bearing response type) | err (MsgErrorMessage) | def (WithDefaultHandler) | all
 var c12Cfg = "none"
+
+// negotiated version of the sessions (request `nv`): see the header comment
+var c12NV = 1
 
 func c12ClientOpts(cfg string) []ClientOpt {
 	opts := []ClientOpt{WithLogger(nil)}
@@ -158,7 +183,20 @@ func c12ClientOpts(cfg string) []ClientOpt {
 func c12NewSession() *c12Session {
 	s := &c12Session{script: make(chan c12Reply, 4), peerDone: make(chan struct{}), connDone: make(chan struct{})}
 	s.cconn, s.pconn = net.Pipe()
-	s.client = NewClient(append(c12ClientOpts(c12Cfg), WithVersion(Version1_0_1))...)
+	opts := c12ClientOpts(c12Cfg)
+	ok := c12statusTLV(0, nil, nil, nil, "")
+	switch c12NV {
+	case 2:
+		s.script <- c12Reply{typ: 56, payload: append([]byte{2 << 5, 2 << 5}, ok...), verp1: 3}
+	case 3:
+		s.script <- c12Reply{typ: 56, payload: append([]byte{1 << 5, 2 << 5}, ok...), verp1: 3}
+		s.script <- c12Reply{typ: 57, payload: ok, verp1: 3}
+	case 4:
+		s.script <- c12Reply{typ: 100, payload: c12statusTLV(110, []byte("no such message"), nil, nil, ""), verp1: 2}
+	default:
+		opts = append(opts, WithVersion(Version1_0_1))
+	}
+	s.client = NewClient(opts...)
 	go s.peer()
 	go func() {
 		defer close(s.connDone)
@@ -199,12 +237,16 @@ func (s *c12Session) peer() {
 		if !ok {
 			return
 		}
+		ver := byte(1)
+		if r.verp1 > 0 {
+			ver = byte(r.verp1 - 1)
+		}
 		if r.pre != nil {
-			if _, err := s.pconn.Write(c12frame(r.pre.typ, id, r.pre.payload)); err != nil {
+			if _, err := s.pconn.Write(c12frameV(ver, r.pre.typ, id, r.pre.payload)); err != nil {
 				return
 			}
 		}
-		if _, err := s.pconn.Write(c12frame(r.typ, id, r.payload)); err != nil {
+		if _, err := s.pconn.Write(c12frameV(ver, r.typ, id, r.payload)); err != nil {
 			return
 		}
 	}
@@ -309,7 +351,7 @@ func (s *c12Session) exchange(exp, act MessageType, payload []byte, mode string,
 	// the request's own type does not matter to C12. CloseConnection is avoided: after sending it the
 	// client's writer deliberately stops serving further requests.
 	reqT := c12ReqType(exp)
-	s.script <- c12Reply{typ: uint16(act), payload: payload, pre: pre}
+	s.script <- c12Reply{typ: uint16(act), payload: payload, pre: pre, verp1: c12VerOf(mode)}
 	ctx, cancel := context.WithTimeout(context.Background(), timeout)
 	var err error
 	panicked := false
@@ -534,7 +576,11 @@ func (s *c12Conc) peer() {
 		}
 		var all []byte
 		for _, k := range b.perm {
-			all = append(all, c12frame(b.replies[k].typ, ids[k], b.replies[k].payload)...)
+			ver := byte(1)
+			if b.replies[k].verp1 > 0 {
+				ver = byte(b.replies[k].verp1 - 1)
+			}
+			all = append(all, c12frameV(ver, b.replies[k].typ, ids[k], b.replies[k].payload)...)
 		}
 		if _, err := s.pconn.Write(all); err != nil { // all replies in one write
 			return
@@ -563,7 +609,7 @@ func (s *c12Conc) round(cases []c12ConcCase, perm []int, timeout time.Duration) 
 	brk := make([]bool, n)
 	b := c12Batch{perm: perm}
 	for _, c := range cases {
-		b.replies = append(b.replies, c12Reply{typ: uint16(c.act), payload: c.payload})
+		b.replies = append(b.replies, c12Reply{typ: uint16(c.act), payload: c.payload, verp1: c12VerOf(c.mode)})
 	}
 	s.script <- b
 	ctx, cancel := context.WithTimeout(context.Background(), timeout)
@@ -639,7 +685,7 @@ func c12Internal(which string, act MessageType, code uint16, d []byte, f *c12Lev
 	if which == "spv" {
 		s.script <- c12Reply{typ: uint16(MsgGetSupportedVersionResponse), payload: append([]byte{1 << 5, 2 << 5}, c12statusTLV(0, nil, nil, nil, "")...)}
 	}
-	s.script <- c12Reply{typ: uint16(act), payload: payload}
+	s.script <- c12Reply{typ: uint16(act), payload: payload, verp1: c12VerOf(flags)}
 	go s.peer()
 	connErr := make(chan error, 1)
 	go func() {
@@ -705,6 +751,288 @@ func c12Internal(which string, act MessageType, code uint16, d []byte, f *c12Lev
 	}
 	r := strings.Fields(c12Render(err, se, wantText))
 	return cls + " " + fields + " " + r[0] + " " + r[1]
+}
+
+// ---- exchange histories: requests started / abandoned, frames with any id, type and header version ----
+//
+// One Client on net.Pipe; the peer reads the requests (each carries one payload byte naming its caller) and
+// writes exactly the frames the history lists, in order. The read loop handles frames one after the other, so
+// the order of the steps is the order in which the Client sees them:
+//   S waits until the peer has read the request (it is registered before it is written);
+//   A cancels the caller's context and waits until SendFor has returned (its registration is gone);
+//   R writes the frame; if it is addressed to an outstanding caller, waits until that caller has returned.
+// Every history ends with all callers answered or abandoned, so nothing depends on waiting "long enough".
+
+type c12HReq struct {
+	k  int
+	id uint32
+}
+
+type c12Hist struct {
+	client   *Client
+	cconn    net.Conn
+	pconn    net.Conn
+	reqs     chan c12HReq
+	peerDone chan struct{}
+	connDone chan struct{}
+	lastID   uint32 // largest request id seen on this connection
+}
+
+func c12NewHist() *c12Hist {
+	h := &c12Hist{reqs: make(chan c12HReq, 16), peerDone: make(chan struct{}), connDone: make(chan struct{})}
+	h.cconn, h.pconn = net.Pipe()
+	opts := c12ClientOpts(c12Cfg)
+	if c12NV == 1 {
+		opts = append(opts, WithVersion(Version1_0_1))
+	}
+	h.client = NewClient(opts...)
+	nv := c12NV
+	go func() {
+		defer close(h.peerDone)
+		ts := c12tlv(128, []byte{0, 0, 0, 0, 0, 0, 0, 1})
+		cae := c12tlv(256, []byte{0, 0})
+		if _, err := h.pconn.Write(c12frame(63, 0, c12tlv(246, append(ts, cae...)))); err != nil {
+			return
+		}
+		ok := c12statusTLV(0, nil, nil, nil, "")
+		hdr := make([]byte, 10)
+		negotiating := nv != 1 // the Client's own version exchanges come first; later requests of those types are callers'
+		for {
+			if _, err := io.ReadFull(h.pconn, hdr); err != nil {
+				return
+			}
+			typ := uint16(hdr[0]&3)<<8 | uint16(hdr[1])
+			total := uint32(hdr[2])<<24 | uint32(hdr[3])<<16 | uint32(hdr[4])<<8 | uint32(hdr[5])
+			id := uint32(hdr[6])<<24 | uint32(hdr[7])<<16 | uint32(hdr[8])<<8 | uint32(hdr[9])
+			if total < 10 {
+				return
+			}
+			body := make([]byte, total-10)
+			if _, err := io.ReadFull(h.pconn, body); err != nil {
+				return
+			}
+			var out []byte
+			switch {
+			case typ == 72:
+			case negotiating && typ == 46 && nv == 2:
+				out = c12frameV(2, 56, id, append([]byte{2 << 5, 2 << 5}, ok...))
+				negotiating = false
+			case negotiating && typ == 46 && nv == 3:
+				out = c12frameV(2, 56, id, append([]byte{1 << 5, 2 << 5}, ok...))
+			case negotiating && typ == 46:
+				out = c12frameV(1, 100, id, c12statusTLV(110, []byte("no such message"), nil, nil, ""))
+				negotiating = false
+			case negotiating && typ == 47:
+				out = c12frameV(2, 57, id, ok)
+				negotiating = false
+			case len(body) != 1:
+			case body[0] == 0xEE: // the warm-up exchange of c12NewHist
+				out = c12frameV(1, 1023, id, nil)
+			default:
+				h.reqs <- c12HReq{int(body[0]), id}
+			}
+			if out != nil {
+				if _, err := h.pconn.Write(out); err != nil {
+					return
+				}
+			}
+		}
+	}()
+	go func() {
+		defer close(h.connDone)
+		_ = h.client.Connect(h.cconn)
+	}()
+	// warm-up exchange: uses up message id 0, so that a frame with id 0 is a frame with an id nobody waits for
+	ctx, cancel := context.WithTimeout(context.Background(), c12RetryTimeout)
+	_, _, _ = h.client.SendMessage(ctx, MsgCustomMessage, []byte{0xEE})
+	cancel()
+	return h
+}
+
+func (h *c12Hist) close() {
+	_ = h.client.Close()
+	_ = h.pconn.Close()
+	_ = h.cconn.Close()
+	for _, ch := range []chan struct{}{h.peerDone, h.connDone} {
+		select {
+		case <-ch:
+		case <-time.After(2 * time.Second):
+		}
+	}
+}
+
+type c12Caller struct {
+	exp        MessageType
+	mode       string
+	id         uint32
+	cancel     context.CancelFunc
+	done       chan struct{}
+	err        error
+	panicked   bool
+	in, before Incoming
+	abandoned  bool
+}
+
+const c12Timed = "timeout - - - - same - - - - ok - -"
+
+// run one history; returns one answer per caller and whether anything timed out
+func (h *c12Hist) run(steps []string, timeout time.Duration) (answers []string, broken bool) {
+	callers := map[int]*c12Caller{}
+	order := []int{}
+	finished := func(c *c12Caller) bool {
+		select {
+		case <-c.done:
+			return true
+		default:
+			return false
+		}
+	}
+	wait := func(c *c12Caller) bool {
+		t := time.NewTimer(timeout)
+		defer t.Stop()
+		select {
+		case <-c.done:
+			return true
+		case <-t.C:
+			return false
+		}
+	}
+	defer func() {
+		for _, c := range callers {
+			c.cancel()
+		}
+	}()
+	bad := func(msg string) ([]string, bool) { return []string{"error: " + msg}, false }
+	for _, st := range steps {
+		f := strings.Split(st, ":")
+		switch {
+		case f[0] == "S" && len(f) == 4:
+			k, e1 := strconv.Atoi(f[1])
+			exp, e2 := c12ParseU16(f[2])
+			if e1 != nil || e2 != nil || k < 0 || k > 200 || callers[k] != nil || f[3] == "" {
+				return bad("bad S step")
+			}
+			c := &c12Caller{exp: MessageType(exp), mode: f[3], done: make(chan struct{})}
+			c.in, c.before = c12Instance(c.exp, c.mode), c12Instance(c.exp, c.mode)
+			if c.in == nil {
+				return bad("no instance for expected type")
+			}
+			var ctx context.Context
+			ctx, c.cancel = context.WithTimeout(context.Background(), 4*timeout+10*time.Second)
+			callers[k] = c
+			order = append(order, k)
+			go func() {
+				defer close(c.done)
+				defer func() {
+					if r := recover(); r != nil {
+						c.panicked = true
+					}
+				}()
+				c.err = h.client.SendFor(ctx, c12Out{typ: c12ReqType(c.exp), data: []byte{byte(k)}}, c.in)
+			}()
+			t := time.NewTimer(timeout)
+			select {
+			case r := <-h.reqs:
+				t.Stop()
+				if r.k != k {
+					return bad("request of another caller read")
+				}
+				c.id = r.id
+				if r.id > h.lastID {
+					h.lastID = r.id
+				}
+			case <-c.done: // SendFor returned without its request being read
+				t.Stop()
+				broken = true
+			case <-t.C:
+				broken = true
+			}
+		case f[0] == "A" && len(f) == 2:
+			k, e1 := strconv.Atoi(f[1])
+			c := callers[k]
+			if e1 != nil || c == nil {
+				return bad("bad A step")
+			}
+			if !finished(c) {
+				c.abandoned = true
+			}
+			c.cancel()
+			if !wait(c) {
+				broken = true
+			}
+		case f[0] == "R" && len(f) == 10:
+			ver, e1 := strconv.Atoi(f[1])
+			typ, e2 := c12ParseU16(f[2])
+			layout, e3 := c12ParseU16(f[4])
+			code, e4 := c12ParseU16(f[5])
+			d, fe, pe, e5 := c12ParseShape(f[6], f[7], f[8])
+			n, e6 := strconv.Atoi(f[3][1:])
+			if e1 != nil || e2 != nil || e3 != nil || e4 != nil || e5 != nil || e6 != nil || ver < 0 || ver > 7 {
+				return bad("bad R step")
+			}
+			var id uint32
+			var target *c12Caller
+			switch f[3][0] {
+			case 'k':
+				if target = callers[n]; target == nil {
+					return bad("R step names a caller that was not started")
+				}
+				id = target.id
+			case 'f':
+				id = 0x40000000 + uint32(n)
+			case 'm': // an id the Client has not used yet (it will, n requests from now)
+				id = h.lastID + uint32(n)
+			case 'z': // id 0: used up by the warm-up exchange
+				id = 0
+			default:
+				return bad("bad id in R step")
+			}
+			payload, err := c12Payload(MessageType(layout), MessageType(typ), code, d, fe, pe, f[9])
+			if err != nil {
+				return bad(err.Error())
+			}
+			wrote := make(chan error, 1)
+			go func() {
+				_, err := h.pconn.Write(c12frameV(byte(ver), typ, id, payload))
+				wrote <- err
+			}()
+			t := time.NewTimer(timeout)
+			select {
+			case err := <-wrote:
+				t.Stop()
+				if err != nil {
+					broken = true
+				}
+			case <-t.C:
+				broken = true
+			}
+			if target != nil && !target.abandoned && !finished(target) && typ != 61 && typ != 62 && typ != 63 {
+				if !wait(target) {
+					broken = true
+				}
+			}
+		default:
+			return bad("bad step " + st)
+		}
+		if broken {
+			break
+		}
+	}
+	for _, k := range order {
+		c := callers[k]
+		if broken && !finished(c) || !wait(c) {
+			broken = true
+			answers = append(answers, c12Timed)
+			continue
+		}
+		a, b := c12Answer(c.err, c.panicked, c.in, c.before)
+		if c.abandoned && errors.Is(c.err, context.Canceled) {
+			a, b = "abandoned"+strings.TrimPrefix(a, "other"), false
+		}
+		broken = broken || b
+		answers = append(answers, a)
+	}
+	return answers, broken
 }
 
 func c12ParseU16(s string) (uint16, error) {
@@ -786,11 +1114,15 @@ func TestVerifC12(t *testing.T) {
 	defer func() { s.close() }()
 	nBroken := 0
 	var cs *c12Conc
+	var hs *c12Hist
 	defGMP, curGMP := runtime.GOMAXPROCS(0), 0
 	defer func() {
 		runtime.GOMAXPROCS(defGMP)
 		if cs != nil {
 			cs.close()
+		}
+		if hs != nil {
+			hs.close()
 		}
 	}()
 	for _, line := range lines {
@@ -857,10 +1189,82 @@ func TestVerifC12(t *testing.T) {
 					s = c12NewSession()
 				}
 			}
+		case len(tok) == 5 && tok[0] == "y":
+			exp, e1 := c12ParseU16(tok[1])
+			act, e2 := c12ParseU16(tok[2])
+			var payload []byte
+			var e3 error
+			if tok[3] != "-" {
+				payload, e3 = hex.DecodeString(tok[3])
+			}
+			if e1 != nil || e2 != nil || e3 != nil || tok[4] == "" {
+				fmt.Fprintln(w, "error: bad request")
+				continue
+			}
+			if nBroken >= c12BrokenBudget {
+				fmt.Fprintln(w, "skipped - - - - same - - - - ok - -")
+				continue
+			}
+			ans, broken := s.exchange(MessageType(exp), MessageType(act), payload, tok[4], nil, c12Timeout)
+			if broken && strings.HasPrefix(ans, "timeout") && nBroken < 2 {
+				s.close()
+				s = c12NewSession()
+				ans, broken = s.exchange(MessageType(exp), MessageType(act), payload, tok[4], nil, c12RetryTimeout)
+			}
+			fmt.Fprintln(w, ans)
+			if broken {
+				nBroken++
+				s.close()
+				s = c12NewSession()
+			}
+		case len(tok) >= 2 && tok[0] == "h":
+			ncallers := 0
+			for _, st := range tok[1:] {
+				if strings.HasPrefix(st, "S:") {
+					ncallers++
+				}
+			}
+			if nBroken >= c12BrokenBudget {
+				fmt.Fprintln(w, strings.TrimSuffix(strings.Repeat("skipped - - - - same - - - - ok - - | ", ncallers), " | "))
+				continue
+			}
+			if hs == nil {
+				hs = c12NewHist()
+			}
+			ans, broken := hs.run(tok[1:], c12Timeout)
+			if broken && nBroken < 2 {
+				hs.close()
+				hs = c12NewHist()
+				ans, broken = hs.run(tok[1:], c12RetryTimeout)
+			}
+			fmt.Fprintln(w, strings.Join(ans, " | "))
+			if broken {
+				nBroken++
+				hs.close()
+				hs = nil
+			}
+		case len(tok) == 2 && tok[0] == "nv":
+			n, err := strconv.Atoi(tok[1])
+			if err != nil || n < 1 || n > 4 {
+				fmt.Fprintln(w, "error: bad request")
+				continue
+			}
+			c12NV = n
+			s.close()
+			s = c12NewSession()
+			if hs != nil {
+				hs.close()
+				hs = nil
+			}
+			fmt.Fprintln(w, "nv "+tok[1])
 		case len(tok) == 2 && tok[0] == "cfg":
 			c12Cfg = tok[1]
 			s.close()
 			s = c12NewSession()
+			if hs != nil {
+				hs.close()
+				hs = nil
+			}
 			fmt.Fprintln(w, "cfg "+tok[1])
 		case len(tok) == 3 && tok[0] == "dt":
 			lo, _ := strconv.Atoi(tok[1])
